@@ -42,7 +42,8 @@ struct Hist {
   // translation it multiplies, in log and again in exp: legitimate error <= ~a*L.  Near theta = pi the term
   // (1+cos theta)/(2 theta sin theta) of V^-1 cancels: legitimate error up to ~10 a*L for pi-theta ~ 1e-8.
   //   rotation parts : quaternion / complex distance <= 0.25 a   (3.7e-10, i.e. ||R'-R||_F <~ 1e-9; float 8.6e-6)
-  //   translation    : <= 8 a * s   away from pi,   67 a * s within 1e-4 of pi      (1.2e-8 s / 1e-7 s; float 2.8e-4 s / 2.3e-3 s)
+  //   translation    : <= 16 a * s below the switch-over, then 64 eps_mach/theta * s (floor 512 eps_mach), and towards pi
+  //                    min(67 a, 64 eps_mach/(pi-theta)) * s for three-dimensional rotation blocks (see tol_lin)
   //   s = 1+L, L = largest translation-like coefficient; (1+L)^2 for groups that multiply two of them (SGal3: v*t).
   double amp(const GroupVT* vt) const { return eps_mach(vt) / std::sqrt(vt->eps); }
   double tol_rot(const GroupVT* vt) const { return 0.25 * amp(vt); }
@@ -50,9 +51,20 @@ struct Hist {
   //   cos / sin from the stored coefficients (SE2::log does) turns that into a relative translation error
   //   delta/theta, so 2*delta/theta of the element under test is added to the allowance (it vanishes for
   //   normalised data, where the tight bound applies).
-  double tol_lin(const GroupVT* vt, double L, bool near_pi, double input_allowance) const {
+  //   above the switch-over the cancellation error of (1-cos theta)/theta^2 is eps_mach/theta relative (it multiplies
+  //   W ~ theta), so the bound shrinks like 64 eps_mach/theta from 16a at theta = 4 sqrt(eps) down to the rounding floor
+  //   512 eps_mach (the constants carry a factor >= 4 over the largest error seen on 20 million round trips of the tree);
+  //   the widening near pi concerns only three-dimensional rotation blocks (V^-1 of SO(3)); SO(2)-type blocks have no
+  //   cancellation there.
+  //   towards pi the term (1+cos theta)/(2 theta sin theta) of the SO(3) V^-1 cancels: eps_mach/(pi-theta) relative,
+  //   saturating at ~10a (67a allowed) once 1+cos theta underflows the mantissa.
+  double tol_lin(const GroupVT* vt, double L, double pi_gap, double input_allowance, double theta) const {
     const double s = (vt->caps & CAP_CROSS) ? (1 + L) * (1 + L) : (1 + L);
-    return ((near_pi ? 67.0 : 8.0) * amp(vt) + input_allowance) * s;
+    const double em = eps_mach(vt);
+    double rel = 16.0 * amp(vt);
+    if (theta > 4 * std::sqrt(vt->eps)) rel = std::max(512 * em, 64.0 * em / std::min(theta, 1.0));
+    if (pi_gap < 1.0) rel = std::max(rel, std::min(67.0 * amp(vt), 64.0 * em / std::max(pi_gap, 1e-300)));
+    return (rel + input_allowance) * s;
   }
   // 2 * max_k |norm(unit block k) - 1| / angle_k   (angle from the logarithm's k-th angular block)
   double input_allowance(const GroupVT* vt, const double* x, const double* logx) const {
@@ -213,6 +225,7 @@ struct Hist {
     c03_probes(vt, x);
     // log
     OpRec l = OpRec(); l.op = OP_LOG; l.a = (uint8_t)slot; l.ka = K_OWN;
+    l.mask = (uint8_t)(nsteps & 1);     // the overload that also returns the Jacobian must compute the same logarithm
     Out lo; vt->exec(gc.st, &l, &lo);
     if (lo.status != 0) {
       res.fail("log_throws", cls("log_throws", vt, op.op), std::string("log() raised ") + status_name(lo.status) + " on " +
@@ -225,10 +238,12 @@ struct Hist {
       return false;
     }
     const double em = eps_mach(vt);
-    bool near_pi = false;
+    double pi_gap = 1e300;      // smallest pi - theta over the three-dimensional rotation blocks
+    double theta_min = 1e300;
     for (int k = 0; k < vt->n_ang; ++k) {
       double a = block_norm(lo.v, vt->ang[k]);
-      if (a > M_PI - 1e-4) near_pi = true;
+      if (a < theta_min) theta_min = a;
+      if (vt->ang[k].len == 3) pi_gap = std::min(pi_gap, std::fabs(M_PI - a));
       if (a > M_PI - 1e-6) res.add("p.log_angle_near_pi", 1);
       if (a > M_PI * (1 + 4 * em)) {
         std::ostringstream s; s.precision(17);
@@ -248,9 +263,14 @@ struct Hist {
     }
     double drot, dlin; elem_dist(vt, x, eo.v, drot, dlin);
     const double tol_rot = this->tol_rot(vt);
-    const double tol_lin = this->tol_lin(vt, lin_mag_elem(vt, x), near_pi, input_allowance(vt, x, lo.v));
+    const double tol_lin = this->tol_lin(vt, lin_mag_elem(vt, x), pi_gap, input_allowance(vt, x, lo.v), theta_min);
     res.setmax(vt->is_float ? "max_roundtrip_rot_float" : "max_roundtrip_rot_double", drot);
     res.setmax(vt->is_float ? "max_roundtrip_lin_rel_float" : "max_roundtrip_lin_rel_double", dlin / lin_scale_elem(vt, x));
+    res.setmax(vt->is_float ? "max_lin_error_over_tolerance_float" : "max_lin_error_over_tolerance_double", dlin / tol_lin);
+    {
+      const char* regime = theta_min <= 4 * std::sqrt(vt->eps) ? "small" : pi_gap < 1e-2 ? "nearpi" : theta_min < 1e-2 ? "mid" : "generic";
+      res.setmax((std::string("max_ratio_") + regime + (vt->is_float ? "_f" : "_d")).c_str(), dlin / tol_lin);
+    }
     if (!(drot <= tol_rot) || !(dlin <= tol_lin)) {
       std::ostringstream s; s.precision(17);
       s << "exp(log X) != X for " << vt->name << " X=" << vec_str(x, vt->rep) << " log=" << vec_str(lo.v, lo.nv)
@@ -294,10 +314,13 @@ struct Hist {
     // inside the injectivity radius the principal logarithm is unique; within 1e-3 of pi the near-pi tolerance applies
     // (cancellation of 1+cos(theta) in V^-1), within 1e-8 of pi the sign of w is down to rounding and the check stops
     bool near_pi = false;
+    double theta_min = 1e300, pi_gap = 1e300;
     for (int k = 0; k < vt->n_ang; ++k) {
       const double a = block_norm(t, vt->ang[k]);
+      if (a < theta_min) theta_min = a;
       if (a > M_PI - std::max(1e-8, 1e3 * eps_mach(vt))) return true;   // (float: the library's own theta/2 and cos carry 1e-7 relative error)
-      if (a > M_PI - 1e-3) near_pi = true;
+      if (a > M_PI - 1e-3 && vt->ang[k].len == 3) near_pi = true;
+      if (vt->ang[k].len == 3) pi_gap = std::min(pi_gap, std::fabs(M_PI - a));
     }
     if (near_pi) res.add("p.logexp_near_pi", 1);
     OpRec l = OpRec(); l.op = OP_LOG; l.a = (uint8_t)eslot; l.ka = K_OWN;
@@ -312,7 +335,7 @@ struct Hist {
     }
     const double tol_ang = (near_pi ? 20 : 2) * this->tol_rot(vt);
     double xe[32]; vt->get_elem(gc.st, eslot, 0, xe);
-    const double tol_lin = this->tol_lin(vt, lin_mag_tan(vt, t), near_pi, input_allowance(vt, xe, t));
+    const double tol_lin = this->tol_lin(vt, lin_mag_tan(vt, t), pi_gap, input_allowance(vt, xe, t), theta_min);
     if (!(dang <= tol_ang) || !(dlin <= tol_lin)) {
       std::ostringstream s; s.precision(17);
       s << "log(exp t) != t for " << vt->name << " t=" << vec_str(t, vt->dof) << " log(exp t)=" << vec_str(lo.v, lo.nv)
@@ -360,6 +383,12 @@ struct Hist {
     if (!inf.draws_rand && vs_rand_draws() != draws0) {
       res.fail("rand_draw", cls("rand_draw", vt, op.op), std::string(inf.name) + " consumed rand()", idx);
       return false;
+    }
+    if (op.op == OP_DECASTELJAU && !c03) {
+      for (int e = 0; e + vt->rep <= out.nv; e += vt->rep)
+        if (!check_elem_valid(gc, out.v + e, op)) return false;
+      res.add("n.curve_points_checked", out.nv / vt->rep);
+      return true;
     }
     ValKind vk = op_value_kind(op.op);
     if (vk == VK_ELEM) {
@@ -493,6 +522,7 @@ struct Hist {
   Step fresh_elem(int g, int slot) {
     const GroupVT* vt = ctx.g[g].vt;
     ElemSpec sp; sp.angle = std::min(pick_angle(vt), M_PI); sp.neg_hemisphere = rng.chance(0.4);
+    if (rng.chance(0.08)) sp.exact = 1 + (int)rng.below(2);   // w == +-0 half turns, exact quarter turns (their product has w == 0)
     lin_range(vt, sp.lin_lo, sp.lin_hi);
     double c[32]; gen_elem(vt, rng, sp, c);
     return make_set(ST_SETE, g, slot, c, vt->rep);
@@ -519,9 +549,9 @@ struct Hist {
 
   // slots E_S1.. are not enough for a cluster: build it in the walk slots 0..n-1 \ {centre}?  No:
   // the cluster lives in the shared container only; pool slots stay untouched.
-  bool cluster(int g, int centre) {
+  bool cluster(int g, int centre, int min_size = 1) {
     const GroupVT* vt = ctx.g[g].vt;
-    int n = 1 + (int)rng.below(6);
+    int n = std::max(min_size, 1 + (int)rng.below(6));
     // member i = centre (+) small tangent, computed by the library into scratch slot, then appended
     Step v0; v0.kind = ST_SETVEC; v0.group = (uint8_t)g; v0.vals.push_back(centre);
     if (!push(v0)) return false;
@@ -585,7 +615,8 @@ struct Hist {
       s = make_op(g, OP_INTERP_SLERP + (int)rng.below(3), a, b, dst);
       s.op.c = (uint8_t)rng.below(T_WALK);
       double u = rng.unit();
-      s.op.s = round_scalar(vt, u < 0.15 ? 0.0 : u < 0.3 ? 1.0 : rng.unit());
+      s.op.s = round_scalar(vt, u < 0.12 ? 0.0 : u < 0.24 ? 1.0 : u < 0.36 ? 1.0 - std::fabs(rng.logmag(1e-12, 1e-2))
+                                : u < 0.44 ? std::fabs(rng.logmag(1e-12, 1e-2)) : rng.unit());
       if (rng.chance(0.3)) s.op.variant = V_ALT;
     } else if (w < 79) {
       // averaging is an iteration with a convergence domain (points within a moderate geodesic radius
@@ -610,6 +641,25 @@ struct Hist {
       if (r == 0) s = make_op(g, OP_M_SETIDENTITY, a, 0, -1);
       else if (r == 1) { s = make_op(g, OP_M_SETTERS, a, b, -1); s.op.c = (uint8_t)rng.below(3); }      // quat() / translation() setters
       else { s = make_op(g, OP_T_SCALE, ts, 0, ts); s.op.s = round_scalar(vt, rng.chance(0.5) ? rng.uniform(-3, 3) : rng.logmag(1e-9, 1e3)); }
+    } else if (w < 97 && rng.chance(0.5)) {
+      if (rng.chance(0.5)) {
+        // curve fitting over a cluster: every returned curve point is an element
+        if (vt->is_float) return true;
+        if (!cluster(g, a, 3)) return false;
+        s = make_op(g, OP_DECASTELJAU, 0, 0, -1); s.op.c = (uint8_t)rng.below(4);
+      } else {
+        // a tangent with subnormal components divided by a subnormal scalar: the quotient is an ordinary tangent
+        const double den = std::fabs(rng.logmag(1e-312, 1e-306));
+        TanSpec sp; sp.angle = rng.uniform(0.01, 3.0); sp.lin_lo = 1e-3; sp.lin_hi = 10;
+        double t[32]; gen_tan(vt, rng, sp, t);
+        if (vt->is_float) return true;
+        for (int i = 0; i < vt->dof; ++i) t[i] *= den;
+        if (!push(make_set(ST_SETT, g, ts, t, vt->dof))) return false;
+        Step d = make_op(g, OP_TM_DIVEQ, ts, 0, -1); d.op.s = den; d.op.ka = K_OWN;
+        if (!push(d)) return false;
+        res.add("f.subnormal_ratio", 1);
+        s = make_op(g, OP_EXP, ts, 0, dst);
+      }
     } else if (w < 97) {
       Step n; n.kind = ST_NEG; n.group = (uint8_t)g; n.slot = a; return push(n);
     } else if (w < 98) {
